@@ -121,6 +121,20 @@ Theorem C19_monotone : forall p tv (s : sstate) (sched1 sched2 : list pev)
   h_height va <= h_height vb.
 Proof. exact monotone_full. Qed.
 
+(** In the machines a read of the local head is ONE action; in the code localHead reads
+    the pending head and then the store head, and the sync loop (store a range, remove
+    it from pending), other calls and either half of a setLocalHead may run in between.
+    With that order the header it returns lies between the local head at its first read
+    and the local head at its second read - so treating it as one action loses nothing
+    for C19_monotone.  [read2 pend st] is localHead's result from a pending head [pend]
+    and a store head [st] read at different moments.  (In the opposite order the result
+    can drop below an earlier one: Example two_reads_reversed in Proofs/SyncHeadP.v, and
+    seeded change C19_r4m1.) *)
+Theorem C19_local_head_two_reads : forall p tv (ps : pstate) (sched : list pev) (ps' : pstate) (tr : list obs),
+  sbj_below (p_c ps) -> prun p tv ps sched = (ps', tr) ->
+  L (c_s (p_c ps)) <= hgt (read2 (s_pend (c_s (p_c ps))) (s_store (c_s (p_c ps')))) <= L (c_s (p_c ps')).
+Proof. exact two_reads. Qed.
+
 (** the thread machine [crun] of the other theorems is [prun] restricted to schedules
     that never split setLocalHead *)
 Theorem C19_atomic_schedules_are_crun : forall p tv (sched : list cev) (c : cstate),
@@ -309,3 +323,4 @@ Print Assumptions C19_wf_invariant.
 Print Assumptions C19_redelivered_head_is_noop.
 Print Assumptions C19_shim_single_header.
 Print Assumptions C19_shim_list_head_covers.
+Print Assumptions C19_local_head_two_reads.
